@@ -58,3 +58,7 @@ package agent
 //@   loop 2 invariant ur.currentDataPoints == old(ur.currentDataPoints) && ur.lastDataPoints == old(ur.lastDataPoints) && (forall g usageSignal :: reported(otlpMetrics, g) == ur.currentDataPoints[g] + ite(seen(g), ur.lastDataPoints[g], 0)) && (forall g usageSignal :: seen(g) ==> in(ur.lastDataPoints, g))
 //@   loop 3 invariant ur.currentDataPoints == old(ur.currentDataPoints) && (forall g usageSignal :: ur.lastDataPoints[g] == old(ur.lastDataPoints)[g] + ite(seen(g), ur.currentDataPoints[g], 0)) && (forall g usageSignal :: seen(g) ==> in(ur.currentDataPoints, g)) && (forall g usageSignal :: reported(otlpMetrics, g) == old(ur.currentDataPoints)[g] + old(ur.lastDataPoints)[g])
 //@   modifies ur.currentDataPoints, ur.lastDataPoints
+
+// ---- C35: usage is added by the metrics reader goroutine and reported / acknowledged by the agent's own
+//@ guarded_by agent.usageTracker.mut: lastUsageData, lastDataPoints, currentDataPoints
+//@ lockdiscipline agent.usageTracker mut props C35
